@@ -39,7 +39,7 @@ ORCH = 'chainables.orchestrate'
 
 
 def run(ctx: Ctx):
-  for r in (r1, r2, r3, r4, r6, r7, r8, r12, r13, r15, r17):
+  for r in (r1, r2, r3, r4, r6, r7, r8, r12, r13, r15, r17, r19):
     ctx.guard(r)
   from mlmverif.props import c09
   from mlmverif.props import c13, c16
@@ -673,10 +673,46 @@ def r17(ctx: Ctx):
   ctx.floor(rule, 0, n)
 
 
+def r19(ctx: Ctx):
+  rule = 'R-C03-19'
+  ctx.rule(rule, '"over any number of shards whose states are merged": whether a metric already HAS a merged state is a question of'
+           ' membership, not of the state\'s truth value. In the merge_states methods of transform.py a state fetched from the'
+           ' running table with `.get(...)` is never used as a truth value (`if prev := table.get(key):`): a state that is'
+           ' falsy without being neutral (a running max of 0, an empty-looking object) is OVERWRITTEN by the next shard\'s'
+           ' state instead of being merged with it')
+  from mlmverif.props.c17 import _truth_positions
+  mi = ctx.repo.module(TR)
+  n = 0
+  for ci in mi.classes.values():
+    fi = ci.methods.get('merge_states')
+    if fi is None:
+      continue
+    n += 1
+    bad = None
+    got = {x.targets[0].id for x in ast.walk(fi.node) if isinstance(x, ast.Assign) and len(x.targets) == 1 and isinstance(x.targets[0], ast.Name)
+           and isinstance(x.value, ast.Call) and isinstance(x.value.func, ast.Attribute) and x.value.func.attr == 'get'}
+    for t in _truth_positions(fi.node):
+      if isinstance(t, ast.NamedExpr) and isinstance(t.value, ast.Call) and isinstance(t.value.func, ast.Attribute) and t.value.func.attr == 'get' \
+          and 'agg_fns' not in unparse(t.value.func.value):
+        bad = t
+      if isinstance(t, ast.Name) and t.id in got:
+        bad = t
+    what = f'{ci.name}.merge_states: "already merged?" is decided by membership, not by the truth of the state'
+    if bad is not None:
+      ctx.fail(rule, fi, what,
+               f'`{unparse(bad)[:60]}` uses the fetched STATE as a truth value: a falsy, non-neutral state (max 0, 0.0, an object with'
+               ' len 0) is replaced by the next shard\'s state — the merged result depends on which shard came first', node=bad)
+    else:
+      ctx.ok(rule, fi, what, fi.node)
+  ctx.floor(rule, 2, n)
+
+
 from mlmverif.selfcheck import B, OK  # noqa: E402
 
 _T = 'chainables/transform.py'
 VARIANTS = [
+    B('merged-state-tested-by-truth', 'chainables/transform.py',
+      "          if key in states_by_fn:\n            fn_state = agg_fn.merge_states([states_by_fn[key], fn_state])", "          if prev_state := states_by_fn.get(key):\n            fn_state = agg_fn.merge_states([prev_state, fn_state])", 'R-C03-19'),
     B('assign-writes-into-the-callers-record', 'chainables/tree_fns.py',
       "      else:\n        result = result.copy_and_set(keys, output)\n    return result.data", "      else:\n        result[keys] = output\n    return result.data", 'R-C03-18'),
     B('chain-result-rebuilt-from-empty-per-stage', 'chainables/transform.py',
